@@ -26,8 +26,15 @@ def regen():
     bridged Props/C04.lean, Props/C05.lean (Gen/Src/C04, Gen/Src/C05)"""
     import srctie
     out = regen_tables()
-    for p in ("C18", "C04", "C05"):
-        out.update(srctie.regen(p))
+    import masktrans   # the Boolean / index-array half of vec_1d_interp, left_shift, right_shift (Gen/Src/C18Mask.lean)
+    first_error = None
+    for gen in [lambda p=p: srctie.regen(p) for p in ("C18", "C04", "C05")] + [masktrans.regen]:
+        try:     # every generator runs, so that no module is left behind from an earlier tree when another one fails
+            out.update(gen())
+        except Exception as e:  # noqa: BLE001
+            first_error = first_error or e
+    if first_error is not None:
+        raise first_error
     return out
 
 
